@@ -5,7 +5,7 @@ fams = sys.argv[1:] or ["arith:+","arith:-","arith:*","arith:/","arith:%","arith
 for f in fams:
     cases = probes.family(f, "quick", 0)
     inp = "\n".join(c.line() for c in cases)+"\n"
-    p = subprocess.run(["/tmp/vrt/debug/verif_replay"], input=inp, capture_output=True, text=True)
+    p = subprocess.run([__import__("os").environ.get("REPLAYER", "/tmp/vrt/debug/verif_replay")], input=inp, capture_output=True, text=True)
     res = {}
     for line in p.stdout.splitlines():
         i, st, hx = line.split("\t")
